@@ -125,14 +125,13 @@ func (s *store) Transaction(options keyvalue.TransactionOptions) (keyvalue.Trans
 }
 
 func (t *transaction) prepOp() (keyvalue.OpID, error) {
+	op := t.op
+	t.op++ // every call gets its own ID, so results stay correlated after an abort
 	select {
 	case <-t.ctx.Done():
-		return 0, t.ctx.Err()
+		return op, t.ctx.Err()
 	default:
 	}
-
-	op := t.op
-	t.op++
 	return op, nil
 }
 
